@@ -94,10 +94,12 @@ def xml_roundtrip(v, doc):
             root = xmlparser.XMLWriter.save_element(doc)
         except ValueError as exc:
             v.classify(exc)
-            if all(lxmlstub.xml_compatible(s) for s in _doc_strings(doc)):
+            if all(lxmlstub.xml_compatible(s) for s in _doc_strings(doc)) and not blank_required(doc):
                 raise Violation("the XML writer refused a document whose text XML can hold")
             v.label("writer-raised")
             return None
+        if blank_required(doc):
+            raise Violation("a document with a blank required text (name, Section type) was written instead of refused")
         problem = vocabulary_problem(root)
         if problem is not None:
             raise Violation("written XML is not odML 1.1: " + problem)
@@ -133,10 +135,12 @@ def _real_roundtrip(v, doc, lenient):
     try:
         text = str(xmlparser.XMLWriter(doc))
     except ValueError:
-        if all(lxmlstub.xml_compatible(s) for s in _doc_strings(doc)):
+        if all(lxmlstub.xml_compatible(s) for s in _doc_strings(doc)) and not blank_required(doc):
             raise Violation("the XML writer refused a document whose text XML can hold")
         v.label("writer-raised")
         return
+    if blank_required(doc):
+        raise Violation("a document with a blank required text (name, Section type) was written instead of refused")
     try:
         from lxml import etree as ET
         root = ET.XML(text)
@@ -190,7 +194,7 @@ def _mute(v):
 
 
 def blank_required(doc):
-    """Input class of the open finding F-C01-blank-name: a required text (name, Section type) that is blank after trimming."""
+    """A required text (name, Section type) that is blank after trimming: XML cannot represent it, the writer has to raise."""
     for obj in C.closure([doc]):
         if C.is_doc(obj):
             continue
@@ -326,7 +330,7 @@ def section_document_attributes_ob(v):
 @obligation("C01", "values", shards=8, budget={"quick": 400, "thorough": 1200},
             expect=["loaded", "empty", "multi"],
             bounds="one Property per value class (one class per shard: str-like, int, float, boolean, date, time, datetime, 2-tuple) with 0..2 values: "
-                   "strings symbolic len<=1 (quick) / <=2 (thorough) over all of Unicode (longer ones in value_codec), ints -2..11, others from pools; dtype explicit or inferred")
+                   "strings symbolic len<=1 over all of Unicode (longer ones in value_codec), ints -2..11, others from pools; dtype explicit or inferred")
 def values_ob(v):
     """Typed values survive XML save and load in order (text trimmed), or the writer raises."""
     import odml
@@ -334,8 +338,7 @@ def values_ob(v):
     vclass = G.VCLASSES[v.shard % len(G.VCLASSES)]
     count = v.choice("count", 3)
     # the CSV codec is decided for longer strings in value_codec; here the whole pipeline runs on shorter ones
-    dtype, vals = G.values_for(v, "p", vclass, count, maxlen=1 if v.tier == "quick" else 2,
-                               int_lo=INT_LO, int_hi=INT_HI)
+    dtype, vals = G.values_for(v, "p", vclass, count, maxlen=1, int_lo=INT_LO, int_hi=INT_HI)
     doc = odml.Document()
     sec = odml.Section(name="s", type="t", parent=doc)
     try:
